@@ -26,7 +26,7 @@ ASSUMPTIONS = ["the integral itself is sedfitter's own Filter.rebin used in isol
                'fit agreement is judged by model name within a first-order perturbation bound; models whose prediction is within 10 delta of a limit point are skipped']
 PROBES = ['crash_rerun', 'crash_left_partial_file', 'subset_calls', 'overwrite_call', 'mixed_grid', 'v1_v2_compared', 'fits_compared',
           'multi_aperture', 'gz_package', 'subdir_package', 'f4_storage', 'limit_skipped', 'tie_group', 'singular_skipped',
-          'consumer_between_convolver_calls', 'remove_resolved', 'bystander_fitter_alive', 'same_filter_objects_in_several_calls', 'filter_in_decreasing_frequency', 'sed_with_a_hole']
+          'consumer_between_convolver_calls', 'remove_resolved', 'bystander_fitter_alive', 'same_filter_objects_in_several_calls', 'filter_in_decreasing_frequency', 'sed_with_a_hole', 'filter_on_the_sed_grid']
 
 
 def budgets(tier):
@@ -188,6 +188,8 @@ def _execute(sc, sim, out):
         out.probe('mixed_grid')
     if spec.get('sed_hole'):
         out.probe('sed_with_a_hole')
+    if any(f.get('on_grid') for f in spec['filters']):
+        out.probe('filter_on_the_sed_grid')
     if any(f.get('desc') for f in spec['filters']):
         out.probe('filter_in_decreasing_frequency')
     trace = [tuple(sc['formats']), min(W.n_ap, 2), spec['dtype'], bool(spec['gz']), bool(spec['subdir']), spec['mixed'] is not None]
@@ -264,6 +266,8 @@ def _execute(sc, sim, out):
         return
     # ---- oracle 1: identity per file; oracle 2: v1 == v2
     tol = _tol(spec['dtype'])
+    loose = 1e-6 if spec['dtype'] == 'f8' else 2e-4
+    from ..ref import ref_rebin
     files = {}
     for fmt, d in dirs.items():
         listing = sorted(os.listdir(os.path.join(d, 'convolved')))
@@ -303,6 +307,16 @@ def _execute(sc, sim, out):
             ee = np.sqrt(np.sum((unc[:, ::-1] * R[None, :]) ** 2, axis=1))
             row = c['names'].index(nm)
             out.compared('identity-row')
+            # ... and, loosely, against the harness's own exact integrator (a gross error of the re-binning itself would
+            # otherwise cancel, because the line above uses sedfitter's rebin for the expectation)
+            Rx = ref_rebin(fs['nu'], fs['r'], nu_of(wv))
+            with np.errstate(all='ignore'):
+                dx = _rel(c['flux'][row], np.sum(val * Rx[None, :], axis=1))
+            out.dev('identity-vs-exact-integral', dx / loose)
+            if not (dx <= loose):
+                out.violate('identity-flux', '%s: row %s holds %s, the exact integral of SED %s over the filter gives %s (rel. dev. %.3g)' % (
+                    what, nm, c['flux'][row], nm, np.sum(val * Rx[None, :], axis=1), dx), key='exact/v%d' % fmt)
+                break
             with np.errstate(all='ignore'):
                 df = _rel(c['flux'][row], ef)
                 de = _rel(c['err'][row], ee)
